@@ -43,7 +43,11 @@ COVERAGE TABLE (statement / quantifier clause -> what explores it -> what is sti
       gap: strings longer than 3 runes only in the seeded random part of the op log; U+FFFD as an INPUT rune.
   "arithmetic equals integer arithmetic over all their arguments"
       -> -3..3 (-4..4), 1..3 args (4 over -2..2), zero divisors, min of nothing; larger values in the op log.
-      left open on purpose: overflow (wrap or error), zero divisor (error or value), non-int arguments.
+      -> large magnitudes as NAMED ints (2^31, 2^32, 4e9, 9e18, min/max int64; 2..3 operands, 4 over four of them):
+         the exact LEFT fold (math/big in drivers/funclib) is the value whenever every intermediate of that fold is
+         an int64 -- so an implementation that reorders the evaluation (divide by the product, subtract the sum)
+         and overflows on the way is wrong even though "overflow" itself stays open.
+      left open on purpose: results when the left fold itself leaves int64, zero divisor (error or value), non-int arguments.
       gap: more than 5 arguments; `max` is not in the map (not documented, not checked).
   "case functions behave as named"
       -> lower/upper/firstLower/firstUpper exact (title-case first letter: mapped or unchanged, both accepted);
@@ -63,7 +67,10 @@ COVERAGE TABLE (statement / quantifier clause -> what explores it -> what is sti
          as the FIRST call of a process, every reply re-read after all later calls (reference vs copy).
          gap: histories across two files / two processes of one run (one output file per run here); histories
          containing an erroring application (a template error ends the execution, nothing after it is observable).
-      ENVIRONMENT: V set / others unset, `$V ${V} $$ ${} ${`; three-entry file system for readFile.
+      ENVIRONMENT: V set / others unset, `$V ${V} $$ ${} ${`; a second environment whose VALUES contain references
+         ($V, ${C}, $$, $5, a self-reference, a 2-cycle, unset names): it travels with the case as an implicit
+         argument, the stdlib namesake is computed under the same environment; three-entry file system for readFile.
+         gap: environments are fixed tables in FuncLibMC.tla (two of them), not enumerated.
          left open: relative readFile paths (cwd vs config dir), randInt distribution.
 """
 import concurrent.futures as cf
@@ -233,6 +240,13 @@ class Case:
         self.origin = origin
         self.sp = {}         # route -> spelling of the arguments (lit | pipe | typed | var)
 
+    def env(self):
+        """The process environment this application is documented against (getenv / expandEnv), or None."""
+        for a in self.args:
+            if a["t"] == "env":
+                return {k: toks_to_bytes(v).decode() for k, v in a["v"].items()}
+        return None
+
     def key(self):
         return json.dumps([self.fn, self.args], sort_keys=True)
 
@@ -257,7 +271,7 @@ class Case:
             if paths is None:
                 return go_lit(list("<" + a["v"] + ">"))
             return go_lit(paths[a["v"]].encode())
-        if t == "raw":
+        if t == "raw" or t == "n":
             return a["v"]
         raise MachineryError(f"unknown argument type {t}")
 
@@ -279,9 +293,10 @@ class Case:
         """(prefix actions, expression).  Spellings of one and the same abstract application:
         lit  (fn a b s)      pipe  (s | fn a b)  -- the documented reason for 'subject last'
         typed  arguments are typed values      var  the last argument comes from a template variable"""
-        srcs = [self.arg_src(a, paths) for a in self.args]
+        shown = [a for a in self.args if a["t"] != "env"]      # the environment is an implicit argument
+        srcs = [self.arg_src(a, paths) for a in shown]
         if sp == "typed":
-            srcs = [self.typed_src(a, paths) for a in self.args]
+            srcs = [self.typed_src(a, paths) for a in shown]
         if sp == "pipe" and srcs:
             return "", "(%s | %s)" % (srcs[-1], " ".join([self.fn] + srcs[:-1]))
         if sp == "var" and srcs:
@@ -318,6 +333,8 @@ def canon_std(r):
         return ("n", int(r.get("i", 0)))
     if t == "err":
         return ("err", r.get("e", ""))
+    if t == "undef":
+        return ("undef",)
     return ("none",)
 
 
@@ -327,6 +344,8 @@ def same(a, b):
     if a[0] == "err":
         return True
     if a[0] == "n":
+        if isinstance(a[1], int) and isinstance(b[1], int):
+            return a[1] == b[1]                      # exact: operands go up to 9.2e18
         return float(a[1]) == float(b[1])
     return a[1] == b[1]
 
@@ -370,6 +389,10 @@ def input_class(c):
                 cl.add("case-changes-length")
             if "xff" in a["v"]:
                 cl.add("invalid-utf8")
+        elif a["t"] == "n":
+            cl.add("large-magnitude")
+        elif a["t"] == "env":
+            cl.add("env-values-with-references")
         elif a["t"] == "i":
             if a["v"] < 0:
                 cl.add("negative")
@@ -408,11 +431,19 @@ class Runner:
             self.n += 1
             return self.n
 
-    def _run(self, cfgpath, timeout=120):
+    def env_for(self, envdef):
+        """Base environment with every one-letter name removed, plus the case's definitions."""
+        if envdef is None:
+            return self.env
+        e = {k: v for k, v in self.env.items() if len(k) != 1}
+        e.update(envdef)
+        return e
+
+    def _run(self, cfgpath, timeout=120, envdef=None):
         with self.lock:
             self.runs += 1
         t = time.time()
-        env = dict(self.env, VERIFHOOK_TRACE=str(Path(cfgpath).parent / "hook.ndjson"))
+        env = dict(self.env_for(envdef), VERIFHOOK_TRACE=str(Path(cfgpath).parent / "hook.ndjson"))
         try:
             p = subprocess.run([self.bin, "--config", str(cfgpath)], cwd=self.world, env=env, capture_output=True,
                                timeout=timeout)
@@ -473,9 +504,10 @@ class Runner:
         per_fn = {}
         while True:
             d = self._materialise(route, lines, param)
-            r = self._run(d / "cfg.yml")
+            envdef = live[0].env() if live else None           # batches are formed per environment
+            r = self._run(d / "cfg.yml", envdef=envdef)
             if r.timed_out and len(live) == 1:
-                r = self._run(d / "cfg.yml", timeout=600)      # a loaded machine is not a hang
+                r = self._run(d / "cfg.yml", timeout=600, envdef=envdef)      # a loaded machine is not a hang
             outb = self._output(d, param if route == "config" else None) if r.code == 0 and not r.panicked else None
             if outb is not None:
                 got = {}
@@ -628,7 +660,10 @@ class Runner:
             missing.append((m.group(1), m.group(2)))
 
     def eval_all(self, route, cases, batch, workers=8):
-        batches = [cases[i:i + batch] for i in range(0, len(cases), batch)]
+        groups = {}
+        for c in cases:                                     # one environment per batch
+            groups.setdefault(json.dumps(c.env(), sort_keys=True), []).append(c)
+        batches = [g[i:i + batch] for g in groups.values() for i in range(0, len(g), batch)]
         # the config route rotates over the templated parameters batch by batch
         params = [self.CFG_PARAMS[k % 3] if route == "config" else "structname" for k in range(len(batches))]
         if route == "config":
@@ -755,6 +790,8 @@ def load_cases(r):
     seen = {}
     for rec in r.prints("CASE"):
         c = Case(len(seen), rec["fn"], rec["args"], rec["expect"], rec["oracle"], rec["rot"], rec.get("subj", 0))
+        if c.expect["t"] == "fold64":
+            c.oracle = "fold64"
         k = c.key()
         if k not in seen:
             seen[k] = c
@@ -766,11 +803,27 @@ def load_cases(r):
 
 def run_namesakes(ctx, drv, cases, env):
     """The Go stdlib namesake for every case whose oracle involves the stdlib."""
-    want = [c for c in cases if c.oracle in ("spec+std", "std")]
+    want_all = [c for c in cases if c.oracle in ("spec+std", "std", "fold64")]
+    groups = {}
+    for c in want_all:
+        groups.setdefault(json.dumps(c.env(), sort_keys=True), []).append(c)
+    n = 0
+    for gi, want in enumerate(groups.values()):
+        e = env if want[0].env() is None else dict({k: v for k, v in env.items() if len(k) != 1}, **want[0].env())
+        n += _namesakes_one(ctx, drv, want, e, gi)
+    return n
+
+
+def _namesakes_one(ctx, drv, want, env, gi):
     inp = []
     for c in want:
         args = []
         for a in c.args:
+            if a["t"] == "env":
+                continue
+            if a["t"] == "n":
+                args.append({"t": "n", "n": a["v"]})
+                continue
             if a["t"] == "s":
                 args.append({"t": "s", "s": toks_to_bytes(a["v"]).hex()})
             elif a["t"] in ("i", "q"):
@@ -780,7 +833,7 @@ def run_namesakes(ctx, drv, cases, env):
             else:
                 raise MachineryError(f"no stdlib form for argument type {a['t']} of {c.fn}")
         inp.append({"id": c.i, "fn": c.fn, "args": args, "rot": bool(c.rot)})
-    d = ctx.scratch / "c16-std"
+    d = ctx.scratch / f"c16-std{gi}"
     d.mkdir(exist_ok=True)
     (d / "in.json").write_text(json.dumps(inp))
     p = subprocess.run([str(drv), "namesake", str(d / "in.json"), str(d / "out.json")], capture_output=True, text=True,
@@ -869,7 +922,7 @@ def judge(c, got):
         if c.oracle == "shape" and got[0] == "err":
             return ("error-where-value", ("value",))
         return None
-    want = c.std if c.oracle == "std" else canon_expect(c.expect)
+    want = c.std if c.oracle in ("std", "fold64") else canon_expect(c.expect)
     if want[0] == "undef":
         return None
     if want[0] == "err":
@@ -1020,6 +1073,11 @@ def run(ctx):
         "replace n=1 replaces one": lambda c: c.fn == "replace" and c.args[2]["v"] == 1 and c.args[0]["v"] == ["a"] and c.args[3]["v"] == ["a", "a", "a"] and c.args[1]["v"] == ["b"] and c.expect["v"] == ["b", "a", "a"],
         "upper of an invalid byte": lambda c: c.fn == "upper" and c.args[0]["v"] == ["xff"] and c.expect["v"] == ["fffd"],
         "round half away from zero": lambda c: c.fn == "round" and c.args[0]["v"] == -10 and c.expect["v"] == -3,
+        "large operands whose left fold is exact but whose divisor product overflows": lambda c: c.fn == "div" and [a["v"] for a in c.args] == ["9000000000000000000", "4000000000", "4000000000"],
+        "divisor product wrapping to zero": lambda c: c.fn == "div" and [a["v"] for a in c.args] == ["1000", "4294967296", "4294967296"],
+        "expandEnv of a self-referential variable": lambda c: c.fn == "expandEnv" and c.args[0]["v"] == ["$", "A"] and len(c.args) == 2,
+        "expandEnv of a variable whose value holds $$": lambda c: c.fn == "expandEnv" and c.args[0]["v"] == ["$", "V"] and len(c.args) == 2,
+        "expandEnv through a 2-cycle": lambda c: c.fn == "expandEnv" and c.args[0]["v"] == ["$", "B"] and len(c.args) == 2,
         "readFile error": lambda c: c.fn == "readFile" and c.expect["t"] == "err",
         "readFile of the empty path": lambda c: c.fn == "readFile" and c.args[0]["v"] == "" and c.expect["t"] == "s",
     }
@@ -1027,7 +1085,7 @@ def run(ctx):
         if not has(g):
             raise MachineryError(f"vacuous: no exported case with {name}")
     for c in cases:
-        if c.subj not in (0, len(c.args)) and c.fn not in ("add", "sub", "mul", "div", "mod", "min"):
+        if c.subj not in (0, len([a for a in c.args if a["t"] != "env"])) and c.fn not in ("add", "sub", "mul", "div", "mod", "min"):
             raise MachineryError(f"function table: subject of {c.fn} is not its last argument")
 
     # ---------------------------------------------------------------- 2. the stdlib oracle; spec-vs-stdlib is exit 2
